@@ -15,7 +15,6 @@ import (
 	"github.com/fabiolb/fabio/config"
 	"github.com/fabiolb/fabio/proxy/tcp"
 
-	"github.com/armon/go-proxyproto"
 	"github.com/inetaf/tcpproxy"
 	"github.com/prometheus/client_golang/prometheus/promhttp"
 )
@@ -149,7 +148,7 @@ func ListenAndServeHTTPSTCPSNI(l config.Listen, h http.Handler, p tcp.Handler, c
 	var tln net.Listener = tcpSNIListener
 	// enable proxy protocol on the tcp side if configured to do so
 	if pxyProto {
-		tln = &proxyproto.Listener{
+		tln = &proxyProtoListener{
 			Listener:           tln,
 			ProxyHeaderTimeout: l.ProxyHeaderTimeout,
 		}
